@@ -197,7 +197,8 @@ _p('C03', 'Step inheritance resolves override/extend correctly and the lookup is
 
 _p('C04', 'The MAL compiler\'s output is the language the source text denotes',
    ['R13', 'R9', 'R17', 'R10', 'R22', 'R25'],
-   decided=['R13a: every grammar rule has a visitor method (or is a documented inline rule)',
+   decided=["R13 c'/e/k/l (rounds 8-11): operator / operand alignment in chains; the dot scan gives up only at tokens outside `expr`; a single-atom multiplicity means n..n and the lower bound never reads the upper; absent optional children yield nothing, repeated children are taken over unfiltered and unsorted, keys filled from token text are not re-assigned", 'R9 a11-a13: one file per lexer run, per-file compiler state not read after an include, every normal return of compile() is the visitor result', 'R25 ASCIISTREAM / GROUPBYDICT / ITERMUT on the compiler and visitor',
+            'R13a: every grammar rule has a visitor method (or is a documented inline rule)',
             'R13b: children the grammar can repeat without bound are consumed in full',
             'R13c: operator chains read the operator between each pair of operands',
             'R13d: every rule reference / content token of a grammar rule is consumed by its visitor',
@@ -210,7 +211,8 @@ _p('C04', 'The MAL compiler\'s output is the language the source text denotes',
 
 _p('C05', 'The instance model stays coherent under any history of edits',
    ['R1', 'R2', 'R3', 'R4', 'R5', 'R18', 'R10', 'R22', 'R17', 'R25'],
-   decided=['R1: no Model mutator removes from a list it walks',
+   decided=['R3 KEY / ADDS / REMOVES (rounds 8-10): indexes emptied under the attribute they are filled under, add_* registers on every normal path, remove_* removes the given object', 'R4d: the name recorded in asset_names is the name the asset ends up with', 'R25 LOOKUPSHORT / SHAREDINLOOP / NAMEFOLD on the model',
+            'R1: no Model mutator removes from a list it walks',
             'R18: neighbours through a field: both orientations tested explicitly (self-links included)',
             "R5': remove_asset calls the raising remove_asset_from_association once per DISTINCT association",
             'R4: explicit asset/attacker ids (0 included) are honoured, the id guard tests the stored '
@@ -247,7 +249,8 @@ _p('C06', 'A model can only hold what the language allows',
 
 _p('C07', 'Saving and loading a model preserves it (JSON and YAML)',
    ['R8', 'R4', 'R15', 'R10', 'R22', 'R17', 'R2', 'R25'],
-   decided=['R8 i-ii: every key Model._to_dict (with asset/association/attacker_to_dict) writes is read by '
+   decided=["R8 viii / ii' / ii''' (rounds 8-11): serialised text written unedited, no allow_unicode / allow_nan=False, truthiness omission guards only for containers, restored keys are written", 'R15 OPTIONS: every loader passes the same options to add_asset / add_association / add_attacker',
+            'R8 i-ii: every key Model._to_dict (with asset/association/attacker_to_dict) writes is read by '
             '_from_dict and every key read unguarded is written unconditionally',
             'R8 iii: conversions invert per declared field type; asset / attacker ids that travelled as mapping '
             'keys are int()-ed before use',
@@ -279,7 +282,8 @@ _p('C08', 'Viability/necessity labels are the greatest fixed point, in any node 
 
 _p('C09', 'Attack-graph structure and lookup indexes stay consistent in any history',
    ['R1', 'R2', 'R3', 'R4', 'R7', 'R20', 'R17', 'R10', 'R22', 'R15', 'R25'],
-   decided=['R1: no loop of the attack-graph layer removes from the list it walks',
+   decided=['R3 KEY / ADDS / REMOVES and R2 DETACH via reached_attack_steps / DELEGATE / ATTACH (rounds 8-11)', 'R25 NAMEFOLD / ITERMUT / SHAREDINLOOP / PROTOTYPE on the attack graph',
+            'R1: no loop of the attack-graph layer removes from the list it walks',
             'R4: node/attacker ids: explicit id honoured, duplicate test on the stored id, counters monotone',
             'R7: the graph deep copy carries indexes and counters and re-links children, parents and '
             'compromised_by through the memo',
@@ -391,7 +395,8 @@ _p('C16', 'Graph generation is deterministic and does not disturb its inputs',
 
 _p('C17', 'Malformed MAL source is rejected, never half-compiled',
    ['R9', 'R17', 'R10', 'R22', 'R25'],
-   decided=['R9a: the parse tree reaches the visitor only under one of the accepted error idioms (raising '
+   decided=['R9 a8 / a11 / a12 / a13 (rounds 7-11): whole input consumed (LT(1)), one file per lexer run, per-file state, compile() returns the visitor result; tree.exception alone is no error test; a lexer-only listener is no parser handling',
+            'R9a: the parse tree reaches the visitor only under one of the accepted error idioms (raising '
             'error listener installed before the start rule / bail strategy / tested error count); the parser '
             'is constructed nowhere else; includes go through MalCompiler.compile',
             'R9a: a listener whose syntaxError can return normally is no handling unless the error count / its state is tested after the parse; the compile error is not caught around the start rule'],
